@@ -184,8 +184,11 @@ func permitScenario(t int, seed int64, slow bool) ([]map[string]any, error) {
 	defer func() { portalwire.VerifEvent = nil }()
 	sw := netsim.NewSwitch()
 	limit := []int{0, 1, 2, 3, 3}[rng.Intn(5)]
-	if t%24 == 4 || (!slow && t%24 == 7 && limit == 0) {
+	if t%24 == 4 {
 		limit = 3
+	}
+	if !slow && t%24 == 7 {
+		limit = 8 // every peer of the forced-timeouts scenario gets its offer with a slot
 	}
 	if t%24 == 0 {
 		limit = 8 // one slot per peer: every peer kind gets its offer WITH a slot (with fewer slots than peers the silent peers,
@@ -449,6 +452,17 @@ func permitScenario(t int, seed int64, slow bool) ([]map[string]any, error) {
 		}
 	}
 	wg.Wait()
+	if outShow {
+		// a batch that cannot be encoded (65 keys, one more than an OFFER may carry): every target's slot goes back all the same
+		// (sweep mutant G3/19-C16 dropped the release on that return of offer())
+		var ks, cs [][]byte
+		for i := 0; i < 65; i++ {
+			ks = append(ks, []byte{byte(t), 0xbb, byte(i)})
+			cs = append(cs, []byte{byte(i)})
+		}
+		A.P.Gossip(nil, ks, cs)
+		waitQuiet(30*time.Second, false)
+	}
 	dbg("gossip rounds done")
 	out = append(out, map[string]any{"ev": "pm.gossip", "rounds": rounds, "peers": kn, "targets": gossiped, "stopMid": stopMid,
 		"show": outShow, "acqOut": pw.snapshot()["acqOut"]})
